@@ -41,6 +41,10 @@ class Malformed(Exception):
     """the protocol line itself is malformed (the driver answers BAD)"""
 
 
+class InputMutated(Exception):
+    """an operation changed an argument the caller owns"""
+
+
 # --------------------------------------------------------------------------------------
 # tokens <-> python values
 
@@ -140,7 +144,7 @@ def parse_updates(s: str, with_child: bool):
         if v != "null":
             check_tok(v)
         ok = (form in ("period", "range", "both", "pstop") and b is not None) or (form == "open" and b is None) \
-            or form == "nostart"
+            or form == "nostart" or (form == "add" and b is None and with_child)
         if not ok:
             raise Malformed(f)
         out.append((child, form, a, b, v))
@@ -202,11 +206,21 @@ def parse_line(line: str):
         if j != len(f) - 4:
             raise Malformed("trailing")
         ups = parse_updates(f[2], True)
-        for (child, *_rest) in ups:
-            kids = dict(tree[1]) if tree[0] == "N" else {}
-            if child not in kids or kids[child][0] != "P":
-                raise Malformed("child")
+        kids = dict(tree[1]) if tree[0] == "N" else None
+        for (child, form, *_rest) in ups:
+            if kids is None or (form != "add" and child in kids and kids[child][0] != "P"):
+                raise Malformed("child")        # (a child that does not exist is for the code to refuse: ERR)
         return ("t", tree, ups, parse_queries(f[3]))
+    if len(f) >= 5 and f[0] == "par" and f[1] == "d":
+        ents, j = parse_dir(f[4:], 0)
+        if j != len(f) - 4:
+            raise Malformed("trailing")
+        return ("d", f[2], parse_queries(f[3]), ents)
+    if len(f) >= 6 and f[0] == "par" and f[1] == "y":
+        data, j = parse_y(f[5:], 0)
+        if j != len(f) - 5:
+            raise Malformed("trailing")
+        return ("y", f[2], parse_updates(f[3], False), parse_queries(f[4]), data)
     if len(f) == 5 and f[0] == "par" and f[1] == "h":
         return ("h", parse_entries(f[2]), parse_ops(f[3], None), parse_queries(f[4]))
     if len(f) >= 5 and f[0] == "par" and f[1] == "ht":
@@ -217,13 +231,16 @@ def parse_line(line: str):
     raise Malformed(line[:40])
 
 
-def check_addr(tree, addr: str) -> None:
-    """the child an `ht` update addresses must be a dated parameter of the tree"""
-    if tree[0] == "P":
+def check_addr(tree, addr: str, form: str = "") -> None:
+    """the child an `ht` update addresses must be a dated parameter of the tree (a group: or a child that does
+    not exist, added or not in that object: the code then refuses); `add` is for groups only"""
+    if form == "add":
+        ok = tree[0] == "N"
+    elif tree[0] == "P":
         ok = addr == "-"
     elif tree[0] == "N":
         kids = dict(tree[1])
-        ok = addr in kids and kids[addr][0] == "P"
+        ok = addr not in kids or kids[addr][0] == "P"
     else:
         parts = addr.split(".")
         ok = len(parts) == 2 and parts[0].isdigit() and int(parts[0]) < len(tree[2]) and parts[1] in FIELDS
@@ -250,7 +267,7 @@ def parse_ops(s: str, tree):
                     raise Malformed(f)
                 (upd,) = parse_updates(u, tree is not None)
                 if tree is not None:
-                    check_addr(tree, upd[0])
+                    check_addr(tree, upd[0], upd[1])
                     if tree[0] == "S" and upd[4] in ("T", "F"):      # scale values are numbers
                         raise Malformed(f)
                 out.append(("u", int(i), upd))
@@ -303,6 +320,379 @@ def tree_data(tree, rs: random.Random):
             d["metadata"] = {"type": "marginal_rate"}
         return d
     return {name: tree_data(sub, rs) for name, sub in tree[1]}
+
+
+# --------------------------------------------------------------------------------------
+# `par y`: objects built from YAML-like data (the model receives the DATA, not the declared tree)
+
+
+class YKey:
+    """a mapping key on a `par y` line: kind 'd' / 'm' / 'y' (a text matching INSTANT_PATTERN: full date, YYYY-MM,
+    YYYY; `ord` = ordinal of its first day), 'k' (any other text), 'i' (an integer)"""
+    __slots__ = ("kind", "ord", "text")
+
+    def __init__(self, kind, ord_, text):
+        self.kind, self.ord, self.text = kind, ord_, text
+
+    def py(self):
+        return int(self.text) if self.kind == "i" else self.text
+
+    def ident(self):
+        return (self.kind in "dmy", self.kind if self.kind in "dmy" else "", self.ord, self.kind == "i", self.text if self.kind not in "dmy" else "")
+
+
+def parse_ykey(tok: str) -> YKey:
+    if tok.startswith("k:"):
+        t = tok[2:]
+        if not t or (len(t) >= 4 and t[:4].isdigit() and t[:4].isascii()):
+            raise Malformed(tok)
+        return YKey("k", None, t)
+    if tok.startswith("i:"):
+        if not re.fullmatch(r"-?[0-9]+", tok[2:]):
+            raise Malformed(tok)
+        return YKey("i", None, str(int(tok[2:])))
+    parts = tok.split("~")
+    if len(parts) != 2 or not parts[1] or not parts[0] or parts[0][0] not in "dmy" or not re.fullmatch(r"-?[0-9]+", parts[0][1:]):
+        raise Malformed(tok)
+    return YKey(parts[0][0], int(parts[0][1:]), parts[1])
+
+
+def parse_y(toks: list, i: int):
+    """tokens -> (data, next index); data = None | bool | ('num', tok) | ('str', text) | list | [(YKey, data)] wrapped
+    as ('map', pairs). The same fragment as the driver: distinct keys, lists of mappings or of scalars, `metadata`
+    neither a list nor the empty text."""
+    if i >= len(toks):
+        raise Malformed("data")
+    t = toks[i]
+    if t == "~":
+        return None, i + 1
+    if t in ("b:T", "b:F"):
+        return t == "b:T", i + 1
+    if t.startswith("v:"):
+        check_tok(t[2:])
+        if t[2:] in ("T", "F") or t[2:].startswith("L"):
+            raise Malformed(t)
+        return ("num", t[2:]), i + 1
+    if t.startswith("s:"):
+        return ("str", t[2:]), i + 1
+    if t[:1] in ("L", "M") and t[1:].isdigit() and t[1:].isascii():
+        n = int(t[1:])
+        i += 1
+        if t[0] == "L":
+            xs = []
+            for _ in range(n):
+                x, i = parse_y(toks, i)
+                xs.append(x)
+            is_map = lambda x: isinstance(x, tuple) and x[0] == "map"
+            is_scalar = lambda x: x is None or isinstance(x, bool) or (isinstance(x, tuple) and x[0] == "num")
+            if not (all(is_map(x) for x in xs) or all(is_scalar(x) for x in xs)):
+                raise Malformed("list")
+            return xs, i
+        pairs = []
+        for _ in range(n):
+            if i >= len(toks):
+                raise Malformed("key")
+            k = parse_ykey(toks[i])
+            v, i = parse_y(toks, i + 1)
+            pairs.append((k, v))
+        ids = [k.text for k, _ in pairs]           # as texts: the YAML loader refuses `2:` beside `"2":`, a dict does not
+        if len(set(ids)) != len(ids):
+            raise Malformed("duplicate key")
+        for k, v in pairs:
+            if k.kind == "k" and k.text == "metadata":
+                if isinstance(v, list) or v == ("str", ""):
+                    raise Malformed("metadata")
+                break
+        return ("map", pairs), i
+    raise Malformed(t)
+
+
+def y_py(data, rs: random.Random):
+    """the python object `yaml.load` would hand over"""
+    if data is None or isinstance(data, bool):
+        return data
+    if isinstance(data, list):
+        return [y_py(x, rs) for x in data]
+    if data[0] == "num":
+        return val_of(data[1], rs)
+    if data[0] == "str":
+        return data[1]
+    return {k.py(): y_py(v, rs) for k, v in data[1]}
+
+
+def y_scalar_yaml(v) -> str:
+    if v is None:
+        return "null"
+    if isinstance(v, bool):
+        return "true" if v else "false"
+    if isinstance(v, float):
+        return repr(v)
+    if isinstance(v, int):
+        return str(v)
+    return json.dumps(v)
+
+
+def y_key_yaml(k, rs: random.Random) -> str:
+    if isinstance(k, int):
+        return str(k)                                   # an integer key stays an integer
+    if DATE_KEY.match(k) and rs.random() < 0.6:
+        return k                                        # unquoted: a YAML timestamp, handed back as text by the loader
+    if PLAIN_KEY.match(k) and rs.random() < 0.7:
+        return k
+    return json.dumps(k)                                # quoted: text whatever it looks like (`"2015"`, `"2015-03"`, `"17"`)
+
+
+def y_flow(v, rs: random.Random) -> str:
+    if isinstance(v, dict):
+        return "{" + ", ".join(f"{y_key_yaml(k, rs)}: {y_flow(x, rs)}" for k, x in v.items()) + "}"
+    if isinstance(v, list):
+        return "[" + ", ".join(y_flow(x, rs) for x in v) + "]"
+    return y_scalar_yaml(v)
+
+
+def y_yaml(v, rs: random.Random, ind: int = 0) -> str:
+    """a YAML document for a python object: block mappings (flow style now and then, and for lists)"""
+    if not isinstance(v, dict) or not v or rs.random() < 0.15:
+        return " " * ind + y_flow(v, rs) + "\n"
+    out = []
+    for k, x in v.items():
+        key = y_key_yaml(k, rs)
+        if isinstance(x, dict) and x and rs.random() < 0.85:
+            out.append(" " * ind + key + ":\n" + y_yaml(x, rs, ind + 2))
+        else:
+            out.append(" " * ind + key + ": " + y_flow(x, rs) + "\n")
+    return "".join(out)
+
+
+RESERVED = ("description", "metadata", "unit", "reference", "documentation")
+
+
+def y_is_node(data) -> bool:
+    """does `_parse_child` make a ParameterNode of this mapping (glue for the directory route only)"""
+    if not (isinstance(data, tuple) and data[0] == "map"):
+        return False
+    keys = [k for k, _ in data[1]]
+    if any(k.kind == "k" and k.text in ("values", "brackets") for k in keys):
+        return False
+    return any(k.kind == "k" or (k.kind == "i" and not 1000 <= int(k.text) <= 9999) for k in keys)
+
+
+def y_dir_ok(data) -> bool:
+    names = [k.text for k, _ in data[1] if not (k.kind == "k" and k.text in RESERVED)]
+    return len(set(names)) == len(names) and all(re.fullmatch(r"[A-Za-z0-9_+'-][A-Za-z0-9_.+'-]*", n) and n != "index" for n in names)
+
+
+def y_write_dir(data, path: str, rs: random.Random, order: dict) -> None:
+    """the directory `ParameterNode(name, directory_path=…)` reads for a node mapping: reserved keys in index.yaml,
+    one file (or sub-directory) per child; `order[path]` = the listing `os.listdir` is pinned to"""
+    index, listing = {}, []
+    for k, v in data[1]:
+        if k.kind == "k" and k.text in RESERVED:
+            index[k.text] = y_py(v, rs)
+        elif not (isinstance(v, tuple) and v[0] == "map") and rs.random() < 0.5:
+            index[k.py()] = y_py(v, rs)                 # not a reserved key: index.yaml is refused
+        elif y_is_node(v) and y_dir_ok(v) and rs.random() < 0.5:
+            sub = os.path.join(path, k.text)
+            os.mkdir(sub)
+            y_write_dir(v, sub, rs, order)
+            listing.append(k.text)
+        else:
+            fn = k.text + rs.choice([".yaml", ".yml"])
+            with open(os.path.join(path, fn), "w") as f:
+                f.write(y_yaml(y_py(v, rs), rs))
+            listing.append(fn)
+    if index or rs.random() < 0.2:
+        fn = "index" + rs.choice([".yaml", ".yml"])
+        with open(os.path.join(path, fn), "w") as f:
+            f.write(y_yaml(index, rs) if index else rs.choice(["", "{}\n"]))
+        listing.insert(rs.randint(0, len(listing)), fn)
+    if rs.random() < 0.3:
+        with open(os.path.join(path, "notes.txt"), "w") as f:
+            f.write("2020-01-01: 1\n")
+        listing.insert(rs.randint(0, len(listing)), "notes.txt")
+    order[os.path.abspath(path)] = listing
+
+
+def y_build(root: str, data, rs: random.Random):
+    """the real object, through `_parse_child` on the python mapping, `load_parameter_file` on a written YAML file,
+    or (node mappings) `ParameterNode(name, directory_path=…)` on a written directory"""
+    from openfisca_core.parameters import ParameterNode, helpers
+    r = rs.random()
+    if r < 0.5:
+        import copy
+        given = y_py(data, rs)
+        kept = copy.deepcopy(given)
+        obj = helpers._parse_child(root, given, rs.choice([None, "x.yaml"]))
+        if given != kept:
+            raise InputMutated("the constructors changed the mapping they were given")
+        return obj
+    tmp = tempfile.mkdtemp(prefix="c06y-")
+    try:
+        if r < 0.75 and y_is_node(data) and y_dir_ok(data):
+            order: dict = {}
+            y_write_dir(data, tmp, rs, order)
+            real = os.listdir
+
+            def listdir(path="."):
+                return list(order.get(os.path.abspath(path), None) or real(path)) if os.path.abspath(path) in order else real(path)
+            os.listdir = listdir
+            try:
+                return ParameterNode(root, directory_path=tmp) if rs.random() < 0.5 else helpers.load_parameter_file(tmp, root)
+            finally:
+                os.listdir = real
+        path = os.path.join(tmp, "x" + rs.choice([".yaml", ".yml"]))
+        with open(path, "w") as f:
+            f.write(y_yaml(y_py(data, rs), rs))
+        return helpers.load_parameter_file(path, root)
+    finally:
+        shutil.rmtree(tmp, ignore_errors=True)
+
+
+def y_unsupported(obj) -> bool:
+    """a bracket field that is not a dated parameter with numeric values (outside the model)"""
+    from openfisca_core.parameters import Parameter, ParameterNode, ParameterScale
+    if isinstance(obj, ParameterScale):
+        for br in obj.brackets:
+            for c in br.children.values():
+                if not isinstance(c, Parameter):
+                    return True
+                if any(v.value is not None and (isinstance(v.value, bool) or not isinstance(v.value, (int, float))) for v in c.values_list):
+                    return True
+        return False
+    if isinstance(obj, ParameterNode):
+        return any(y_unsupported(c) for c in obj.children.values())
+    return False
+
+
+def fine_of(instant_str: str) -> str:
+    if len(instant_str) == 4:
+        return f"{dt.date(int(instant_str), 1, 1).toordinal()}y"
+    if len(instant_str) == 7:
+        return f"{dt.date(int(instant_str[:4]), int(instant_str[5:]), 1).toordinal()}m"
+    return str(dt.date.fromisoformat(instant_str).toordinal())
+
+
+def stage_pf(p, qs, rs) -> str:
+    ents = ",".join(f"{fine_of(v.instant_str)}={'null' if v.value is None else tok_of(v.value)}" for v in p.values_list)
+    return ents + "@" + ",".join(tok_of(read_at(p, q, rs)) for q in qs)
+
+
+def show_y(obj, x) -> str:
+    """a snapshot of `obj` (the value `x = obj(date)`): a node lists after its members the children of `obj` it
+    does not expose, each with the name the error carries"""
+    from openfisca_core.errors import ParameterNotFoundError
+    from openfisca_core.parameters import ParameterNodeAtInstant
+    if x is RAISED:
+        return "ERR"
+    if isinstance(x, ParameterNodeAtInstant):
+        members = list(x)
+        mem = [f"{k}={show_y(obj.children[k], x[k])}" for k in members]
+        absent = []
+        for k in obj.children:
+            if k not in members:
+                try:
+                    getattr(x, k)
+                    absent.append(f"{k}>?")
+                except ParameterNotFoundError as e:         # (`e.name` is overwritten by the interpreter: read the message)
+                    m = NOT_FOUND.match(str(e))
+                    absent.append(f"{k}>{m.group(1) if m else '?' + str(e)}")
+                except Exception as e:
+                    absent.append(f"{k}>!{type(e).__name__}")
+        return "{" + ",".join(mem) + "}" + ("!(" + ",".join(absent) + ")" if absent else "")
+    return show_snap(x)
+
+
+def impl_y(parsed, rs: random.Random) -> str:
+    from openfisca_core.parameters import Parameter
+    _, root, ups, qs, data = parsed
+    name = "" if root == "-" else root
+    try:
+        obj = y_build(name, data, rs)
+    except InputMutated:
+        return "INPUT-MUTATED"
+    except Exception:
+        return "ERR"
+    if y_unsupported(obj):
+        return "UNSUP"
+    if isinstance(obj, Parameter):
+        stages = ["P", stage_pf(obj, qs, rs)]
+        for (_c, form, a, b, v) in ups:
+            ok = call_update(obj, form, a, b, v, rs)
+            stages.append(stage_pf(obj, qs, rs) if ok else "ERR")
+        return "|".join(stages)
+    if ups:
+        return "BAD"
+    snaps = ";".join(show_y(obj, read_at(obj, q, rs)) for q in qs)
+    probe = alias_probe(obj, qs, rs)
+    return "T|" + snaps + "|D:" + ",".join(str(d.name) for d in obj.get_descendants()) + ("|" + probe if probe else "")
+
+
+ABSENT_GROUP = re.compile(r"!\([^()]*\)")
+NOT_FOUND = re.compile(r"^The parameter '(.*)' was not found in the \d{4}-\d{2}-\d{2} tax and benefit system\.$")
+
+
+def ticks(tree):
+    """the declared tree of a `par y` case with its entries in ticks (3 per day: `YYYY` < `YYYY-MM` < full spelling
+    of the same first day), so that the naive reference functions above apply unchanged"""
+    rank = {"d": 0, "m": -1, "y": -2}
+    ent = lambda es: [(3 * o + rank[sp], tok) for o, tok, sp in es]
+    if tree[0] == "P":
+        return ("P", ent(tree[1]))
+    if tree[0] == "S":
+        return ("S", tree[1], [tuple(ent(f) for f in br) for br in tree[2]])
+    return ("N", [(k, ticks(sub)) for k, sub in tree[1]])
+
+
+def oracle_y(case: Case, parsed, out: str):
+    """`payload["tree"]` is the declared tree the data was written from"""
+    tree = (case.payload or {}).get("tree")
+    if tree is None:
+        return None
+    _, root, ups, qs, _data = parsed
+    if out in ("ERR", "BAD", "UNSUP"):
+        return ("construct", f"building the object from well-formed data answered {out}")
+    t = ticks(tree)
+    parts = out.split("|")
+    if t[0] == "P":
+        if parts[0] != "P" or len(parts) != len(ups) + 2:
+            return ("shape", "a parameter was declared; got " + out[:60])
+        stages = parts[1:]
+        reads0 = stages[0].split("@")[1].split(",")
+        for q, r in zip(qs, reads0):
+            w = latest(t[1], 3 * q)
+            if r != w:
+                sig = "undefined-before-first" if not any(o <= 3 * q and tk != "expected" for o, tk in t[1]) else "get-latest"
+                return (sig, f"fresh parameter reads {r} at {iso(q)}; its latest entry on or before that date gives {w}")
+        prev = reads0
+        for i, (_c, form, a, b, v) in enumerate(ups, 1):
+            if stages[i] == "ERR":
+                return ("update-raised", f"update #{i} ({form} {iso(a)}..{iso(b) if b is not None else 'open'}) raised")
+            cur = stages[i].split("@")[1].split(",")
+            vt = "none" if v == "null" else v
+            for q, r, pr in zip(qs, cur, prev):
+                inside = a <= q and (b is None or q <= b)
+                if inside and r != vt:
+                    return ("update-inside", f"after update #{i} ({form} {iso(a)}..{iso(b) if b is not None else 'open'} := {v}) "
+                                             f"the value at {iso(q)} (inside the range) is {r}")
+                if not inside and r != pr:
+                    return ("update-outside", f"after update #{i} ({form} {iso(a)}..{iso(b) if b is not None else 'open'} := {v}) "
+                                              f"the value at {iso(q)} (outside the range) changed from {pr} to {r}")
+            prev = cur
+        return None
+    if parts[-1].startswith("ALIAS"):
+        return ("result-aliased", "a read shows what the caller did to the object an EARLIER read had returned: " + parts[-1][:400])
+    if parts[0] != "T" or len(parts) != 3:
+        return ("shape", "a group or scale was declared; got " + out[:60])
+    snaps = parts[1].split(";")
+    if len(snaps) != len(qs):
+        return ("shape", "wrong number of snapshots")
+    for q, sn in zip(qs, snaps):
+        want = expect_snap(t, {}, 3 * q)
+        got = parse_snap(ABSENT_GROUP.sub("", sn))
+        r = diff_snap(want, got)
+        if r:
+            return (r[0], f"{iso(q)}: {r[1]}")
+    return None
 
 
 # ---- construction routes (implementation-side glue: the model receives the declared tree) -------------------
@@ -502,6 +892,17 @@ def update_kwargs(form: str, a: int, b, vtok: str, rs: random.Random) -> dict:
     raise Malformed(form)
 
 
+def call_add(node, child: str, a: int, vtok: str, rs: random.Random) -> bool:
+    """node.add_child(child, <a new Parameter holding one entry>); False when the implementation raised"""
+    from openfisca_core.parameters import Parameter
+    try:
+        v = val_of(vtok, rs)
+        node.add_child(child, Parameter(f"{node.name}.{child}" if node.name else child, {iso(a): v if rs.random() < 0.5 else {"value": v}}))
+    except Exception:
+        return False
+    return True
+
+
 def call_update(p, form: str, a: int, b, vtok: str, rs: random.Random) -> bool:
     """issue the update through the public API; False when the implementation raised"""
     kw = update_kwargs(form, a, b, vtok, rs)
@@ -656,6 +1057,36 @@ def show_snap(x, tree=None, rs=None, unordered=False) -> str:
     return tok_of(x)
 
 
+def _spoil(x) -> None:
+    """mutate, through its public attributes, what a read returned (a tax scale's lists, a group's members)"""
+    from openfisca_core.parameters import ParameterNodeAtInstant
+    if isinstance(x, ParameterNodeAtInstant):
+        for k in list(x):
+            _spoil(x[k])
+        x.add_child("zz_spoiled", 424242)
+    elif type(x).__name__ in KIND_OF_CLASS:
+        x.thresholds.append(987654321)
+        (x.amounts if hasattr(x, "amounts") else x.rates).append(0.5)
+        if x.thresholds:
+            x.thresholds[0] = -1
+
+
+def alias_probe(obj, qs, rs: random.Random) -> str:
+    """Read, spoil what came back, read again: a later read must not show what a caller did to an earlier result
+    (each evaluation at a date builds its own objects). '' when it does not."""
+    if not qs or rs.random() < 0.6:
+        return ""
+    q = rs.choice(qs)
+    try:
+        first = obj(iso(q))
+        before = show_snap(first)
+        _spoil(first)
+        after = show_snap(obj(iso(q)))
+    except Exception as e:
+        return f"ALIAS-PROBE-RAISED:{type(e).__name__}"
+    return "" if before == after else f"ALIASED@{q}:{before}->{after}"
+
+
 def stage_p(p, qs, rs) -> str:
     ents = ",".join(f"{dt.date.fromisoformat(v.instant_str).toordinal()}={'null' if v.value is None else tok_of(v.value)}"
                     for v in p.values_list)
@@ -672,6 +1103,10 @@ def impl(case: Case) -> str:
     rs.force_spelling = (case.payload or {}).get("spell")
     if parsed[0] in ("h", "ht"):
         return impl_history(parsed, rs)
+    if parsed[0] == "y":
+        return impl_y(parsed, rs)
+    if parsed[0] == "d":
+        return impl_d(parsed, rs)
     if parsed[0] == "p":
         _, entries, ups, qs = parsed
         try:
@@ -689,9 +1124,17 @@ def impl(case: Case) -> str:
         obj = build_obj(tree, "n", rs, st)
     except Exception:
         return "ERR"
-    stage = lambda: ";".join(show_snap(read_at(obj, q, rs), tree, rs, st.get("unordered", False)) for q in qs)
+    cur = {"tree": tree}
+    stage = lambda: ";".join(show_snap(read_at(obj, q, rs), cur["tree"], rs, st.get("unordered", False)) for q in qs)
     stages = [stage()]
     for (child, form, a, b, v) in ups:
+        if form == "add":
+            if call_add(obj, child, a, v, rs):
+                cur["tree"] = ("N", list(cur["tree"][1]) + [(child, ("P", [(a, v)]))])    # (the names `members_of` asks for)
+                stages.append(stage())
+            else:
+                stages.append("ERR")
+            continue
         try:                 # a declared child that cannot be reached counts as an update that raised
             target = obj.children[child] if rs.random() < 0.5 else getattr(obj, child)
         except (KeyError, AttributeError):
@@ -699,6 +1142,9 @@ def impl(case: Case) -> str:
             continue
         ok = call_update(target, form, a, b, v, rs)
         stages.append(stage() if ok else "ERR")
+    probe = alias_probe(obj, qs, rs)
+    if probe:
+        stages.append(probe)
     return "|".join(stages)
 
 
@@ -723,16 +1169,26 @@ def impl_history(parsed, rs: random.Random) -> str:
         return "ERR"
     unordered = st.get("unordered", False)
     out = []
+    added: dict = {}           # per object: the children added to it (the names `members_of` asks for, beside the declared ones)
     for op in ops:
         if op[0] == "c":
             objs.append(objs[op[1]].clone())
-            out.append("c")
+            added[id(objs[-1])] = list(added.get(id(objs[op[1]]), []))
+            # a fresh clone of a Parameter compares equal to its source (`Parameter.__eq__`: name and values list)
+            out.append("c" if kind != "h" or (objs[-1] == objs[op[1]] and objs[-1] is not objs[op[1]]) else "c-differs")
         elif op[0] == "r":
             o = objs[op[1]]
+            shape = first if not added.get(id(o)) else ("N", list(first[1]) + added[id(o)])
             out.append(stage_p(o, qs, rs) if kind == "h"
-                       else ";".join(show_snap(read_at(o, q, rs), first, rs, unordered) for q in qs))
+                       else ";".join(show_snap(read_at(o, q, rs), shape, rs, unordered) for q in qs))
         else:
             _, i, (child, form, a, b, v) = op
+            if form == "add":
+                ok = call_add(objs[i], child, a, v, rs)
+                if ok:
+                    added.setdefault(id(objs[i]), []).append((child, ("P", [(a, v)])))
+                out.append("u" if ok else "ERR")
+                continue
             try:
                 target = objs[i] if kind == "h" else target_of(objs[i], first, child, rs)
             except (KeyError, AttributeError, IndexError):
@@ -877,6 +1333,10 @@ def oracle(case: Case, out: str):
         parsed = parse_line(case.line)
     except Malformed:
         return None
+    if parsed[0] == "y":
+        return oracle_y(case, parsed, out)
+    if parsed[0] == "d":
+        return oracle_y(case, ("y", parsed[1], [], parsed[2], None), out)
     if out == "ERR" or out == "BAD":
         return ("construct", "building the parameter from well-formed data raised")
     stages = out.split("|")
@@ -915,6 +1375,9 @@ def oracle(case: Case, out: str):
             prev = cur
         return None
     _, tree, ups, qs = parsed
+    if stages and stages[-1].startswith("ALIAS"):
+        return ("result-aliased", "a read shows what the caller did to the object an EARLIER read had returned (each evaluation "
+                                  "at a date must build its own): " + stages[-1][:400])
     if len(stages) != len(ups) + 1:
         return ("shape", "wrong number of stages")
     applied: dict = {}
@@ -923,7 +1386,10 @@ def oracle(case: Case, out: str):
             child, form, a, b, v = ups[i - 1]
             if st == "ERR":
                 return ("update-raised", f"update #{i} of child {child} raised")
-            applied.setdefault(child, []).append((a, b, v))
+            if form == "add":
+                tree = ("N", list(tree[1]) + [(child, ("P", [(a, v)]))])
+            else:
+                applied.setdefault(child, []).append((a, b, v))
         snaps = st.split(";")
         if len(snaps) != len(qs):
             return ("shape", "wrong number of snapshots")
@@ -950,7 +1416,10 @@ def oracle_history(parsed, items):
             _, i, (child, form, a, b, v) = op
             if it == "ERR":
                 return ("update-raised", f"op #{k}: update of object {i} ({form} {iso(a)}..{iso(b) if b is not None else 'open'}) raised")
-            own[i].setdefault(child if kind == "ht" else "-", []).append((a, b, v))
+            if form == "add":
+                own[i].setdefault("+", []).append((child, ("P", [(a, v)])))
+            else:
+                own[i].setdefault(child if kind == "ht" else "-", []).append((a, b, v))
         else:
             i = op[1]
             pre = "clone:" if len(own) > 1 else ""
@@ -974,8 +1443,9 @@ def oracle_history(parsed, items):
                 snaps = it.split(";")
                 if len(snaps) != len(qs):
                     return ("shape", "wrong number of snapshots")
+                mine = first if not own[i].get("+") else ("N", list(first[1]) + own[i]["+"])
                 for q, s in zip(qs, snaps):
-                    r = diff_snap(expect_snap(first, own[i], q), parse_snap(s))
+                    r = diff_snap(expect_snap(mine, own[i], q), parse_snap(s))
                     if r:
                         return (pre + r[0], f"{what}, {iso(q)}: {r[1]}")
     return None
@@ -983,6 +1453,11 @@ def oracle_history(parsed, items):
 
 def nontrivial(case: Case, out: str) -> bool:
     stages = out.split("|")
+    if case.line.startswith("par y") or case.line.startswith("par d"):
+        if stages[0] == "P":
+            reads = [s.split("@")[1] for s in stages[1:] if "@" in s]
+            return any(len(set(r.split(","))) > 1 for r in reads)
+        return stages[0] == "T" and len(stages) > 1 and len(set(stages[1].split(";"))) > 1
     if case.line.startswith("par h"):
         reads = {s for s in stages if s not in ("c", "u", "ERR", "BAD")}
         return len(reads) > 1
@@ -1188,13 +1663,14 @@ def mk_thist(tree, ops, qs: str, style: int, claimed=True, tags=(), spell=None) 
                 claimed=claimed, tags=("tree-history",) + tuple(tags))
 
 
-def gen_ops(rng: random.Random, lo: int, hi: int, addresses):
+def gen_ops(rng: random.Random, lo: int, hi: int, addresses, declared=None):
     """A history over several objects. `addresses(rng)` -> (addr, dates, value pool | None) of a parameter
     that can be updated in any object (all objects are clones of one another, so they share the addresses).
     Reads are placed before updates, after them on the updated object and on the others in either order, and
     on every object at the end."""
     ops, tags, claimed = [], [], True
     dates: list = [{}]                       # per object: addr -> dates added by updates
+    added: list = [set()]                    # per object: the children given to it by add_child (`declared`: a group's names)
     if rng.random() < 0.5:
         ops.append(("r", 0))
     for step in range(rng.randint(2, 6)):
@@ -1203,6 +1679,7 @@ def gen_ops(rng: random.Random, lo: int, hi: int, addresses):
             src = rng.randrange(len(dates))
             ops.append(("c", src))
             dates.append({k: list(v) for k, v in dates[src].items()})
+            added.append(set(added[src]))
             if rng.random() < 0.3:
                 ops.append(("r", rng.randrange(len(dates))))
             continue
@@ -1214,6 +1691,13 @@ def gen_ops(rng: random.Random, lo: int, hi: int, addresses):
         child, form, a, b, v = ups[0]
         if pool is not None and v != "null":
             v = rng.choice(pool)
+        if declared is not None and rng.random() < 0.22:
+            # add_child on one object (a clone, or the original after it was cloned): the others must not see it
+            name = rng.choice(["added", "added", "new_1", "k9", declared[0]])
+            fresh = name not in declared and name not in added[i]
+            child, form, a, b, t, c = name, "add", rng.randint(lo, hi), None, ["add-child" if fresh else "add-child-taken"], c and fresh
+            if fresh:
+                added[i].add(name)
         ops.append(("u", i, (child, form, a, b, v)))
         tags += t
         claimed = claimed and c
@@ -1276,7 +1760,7 @@ def gen_thist_case(rng: random.Random) -> Case:
         ds = [d for d, t in tree[1] if t != "expected"]
         addresses = lambda r2: ("-", ds, None)
         kind = "param"
-    ops, tags, claimed = gen_ops(rng, lo, hi, addresses)
+    ops, tags, claimed = gen_ops(rng, lo, hi, addresses, [k for k, _ in tree[1]] if kind == "node" else None)
     return mk_thist(tree, ops, f"{lo - 2}..{hi + 2}", rng.getrandbits(30), claimed, tags + ["top:" + kind])
 
 
@@ -1382,6 +1866,18 @@ def gen_node_case(rng: random.Random) -> Case:
             ups += u
             tags += t
             claimed = claimed and c
+    if rng.random() < 0.12:                    # a child added to the live group, then (sometimes) updated
+        name = rng.choice(["added", "new_1", tree[1][0][0]])
+        fresh = name not in [k for k, _ in tree[1]]
+        a0 = rng.randint(lo, hi)
+        ups.insert(rng.randint(0, len(ups)), (name, "add", a0, None, gen_value(rng, 0.1)))
+        claimed = claimed and fresh
+        tags.append("add-child" if fresh else "add-child-taken")
+        if fresh and rng.random() < 0.5:
+            u, t, c = gen_updates(rng, [a0], lo, hi, 1, child=name)
+            ups += u
+            tags += t
+            claimed = claimed and c
     return mk_tree(tree, ups, f"{lo - 2}..{hi + 2}", rng.getrandbits(30), claimed,
                    ["node", f"children={len(tree[1])}"] + tags)
 
@@ -1394,22 +1890,492 @@ def gen_scale_case(rng: random.Random) -> Case:
                    ["scale", f"brackets={len(tree[2])}", "scale:" + flavour])
 
 
+# ---- `par y`: generation --------------------------------------------------------------------------------------
+
+
+def fmt_y(data) -> str:
+    if data is None:
+        return "~"
+    if isinstance(data, bool):
+        return "b:T" if data else "b:F"
+    if isinstance(data, list):
+        return " ".join([f"L{len(data)}"] + [fmt_y(x) for x in data])
+    if data[0] == "num":
+        return "v:" + data[1]
+    if data[0] == "str":
+        return "s:" + data[1]
+    out = [f"M{len(data[1])}"]
+    for k, v in data[1]:
+        out.append(f"{k.kind}{k.ord}~{k.text}" if k.kind in "dmy" else f"{k.kind}:{k.text}")
+        out.append(fmt_y(v))
+    return " ".join(out)
+
+
+def kname(text: str) -> YKey:
+    return YKey("k", None, text)
+
+
+def date_key(o: int, sp: str) -> YKey:
+    t = iso(o)
+    return YKey(sp, o, t if sp == "d" else t[:7] if sp == "m" else t[:4])
+
+
+def gen_y_history(rng: random.Random, lo: int, hi: int, nmax=6, numeric=None):
+    """a dated history whose keys are spelled in full, `YYYY-MM` (first of a month) or `YYYY` (1 January)"""
+    out, seen = [], set()
+    for (d, tok) in gen_history(rng, lo, hi, nmax, numeric):
+        if rng.random() < 0.4:
+            d = D(d).replace(day=1).toordinal()
+            if rng.random() < 0.4:
+                d = D(d).replace(month=1).toordinal()
+        day = D(d)
+        sp = "d"
+        if day.day == 1 and rng.random() < 0.7:
+            sp = "y" if day.month == 1 and rng.random() < 0.6 else "m"
+        if (d, sp) not in seen:
+            seen.add((d, sp))
+            out.append((d, tok, sp))
+    return out
+
+
+def enc_value(tok: str):
+    if tok == "null":
+        return None
+    if tok in ("T", "F"):
+        return tok == "T"
+    if tok.startswith("L"):
+        return [enc_value(t) for t in tok[1:].split("_")] if len(tok) > 1 else []
+    return ("num", tok)
+
+
+def enc_item(rng: random.Random, tok: str):
+    if tok == "expected":
+        return rng.choice([("str", "expected"), ("map", [(kname("expected"), True)]),
+                           ("map", [(kname("expected"), ("num", "3")), (kname("value"), ("num", "5"))])])
+    v = enc_value(tok)
+    r = rng.randrange(6)
+    if r < 2:
+        return v
+    pairs = [(kname("value"), v)]
+    if r == 3:
+        pairs.append((kname("metadata"), ("map", [(kname("reference"), ("str", "r"))])))
+    elif r == 4:
+        pairs.insert(0, (kname("unit"), ("str", "currency")))
+    elif r == 5:
+        pairs.append((kname("reference"), ("str", "https://example.org")))
+    return ("map", pairs)
+
+
+Y_NOISE = [("description", ("str", "c06")), ("documentation", ("str", "doc")), ("metadata", ("map", [(kname("unit"), ("str", "currency"))])),
+           ("unit", ("str", "/1")), ("reference", ("str", "ref")), ("metadata", ("map", []))]
+
+
+def enc_param(rng: random.Random, entries):
+    pairs = [(date_key(o, sp), enc_item(rng, tok)) for (o, tok, sp) in entries]
+    if pairs and rng.random() < 0.4:
+        outer = [(kname("values"), ("map", pairs))]
+        used = set()
+        for k, v in rng.sample(Y_NOISE, rng.randint(0, 3)):
+            if k not in used:
+                used.add(k)
+                outer.insert(rng.randint(0, len(outer)), (kname(k), v))
+        return ("map", outer)
+    return ("map", pairs)
+
+
+def enc_scale(rng: random.Random, tree):
+    brs = []
+    for fields in tree[2]:
+        b = []
+        for name, entries in zip(FIELDS, fields):
+            if entries or rng.random() < 0.15:
+                b.append((kname(name), enc_param(rng, entries)))
+        rng.shuffle(b)
+        brs.append(("map", b))
+    outer = [(kname("brackets"), brs)]
+    if tree[1]:
+        outer.append((kname("metadata"), ("map", [(kname("type"), ("str", "single_amount"))])))
+    elif rng.random() < 0.3:
+        outer.append((kname("metadata"), ("map", rng.choice([[(kname("type"), ("str", "marginal_rate"))], [(kname("unit"), ("str", "/1"))], []]))))
+    if rng.random() < 0.3:
+        outer.insert(0, (kname("description"), ("str", "a_scale")))
+    if rng.random() < 0.15:
+        outer.append((kname(rng.choice(["unit", "reference", "documentation"])), ("str", "x")))
+    return ("map", outer)
+
+
+def enc_tree(rng: random.Random, tree):
+    if tree[0] == "P":
+        return enc_param(rng, tree[1])
+    if tree[0] == "S":
+        return enc_scale(rng, tree)
+    pairs = []
+    for name, sub in tree[1]:
+        key = YKey("i", None, name) if name.isdigit() and str(int(name)) == name and rng.random() < 0.5 else kname(name)
+        pairs.append((key, enc_tree(rng, sub)))
+    used = set()
+    noise = rng.sample(Y_NOISE, rng.randint(0, 2)) if rng.random() < 0.4 else []
+    if not pairs and not noise:
+        noise = [Y_NOISE[0]]                   # an empty mapping would be an (empty) parameter
+    for k, v in noise:
+        if k not in used:
+            used.add(k)
+            pairs.insert(rng.randint(0, len(pairs)), (kname(k), v))
+    return ("map", pairs)
+
+
+def spell_tree(rng: random.Random, tree, lo: int, hi: int):
+    """re-draw the histories of a declared tree with spelled keys"""
+    if tree[0] == "P":
+        return ("P", gen_y_history(rng, lo, hi, 4))
+    if tree[0] == "S":
+        pools = (THRESHOLDS, RATES, AMOUNTS, RATES)
+        return ("S", tree[1], [tuple(gen_y_history(rng, lo, hi, 3, pools[j]) if f else [] for j, f in enumerate(br)) for br in tree[2]])
+    return ("N", [(k, spell_tree(rng, sub, lo, hi)) for k, sub in tree[1]])
+
+
+def all_maps(data, acc):
+    if isinstance(data, list):
+        for x in data:
+            all_maps(x, acc)
+    elif isinstance(data, tuple) and data[0] == "map":
+        acc.append(data)
+        for _k, v in data[1]:
+            all_maps(v, acc)
+    return acc
+
+
+def mutate_y(rng: random.Random, data):
+    """one edit of well-formed data that the constructors should refuse (or silently read differently):
+    returns (data, tag)"""
+    import copy
+    data = copy.deepcopy(data)
+    maps = all_maps(data, [])
+    op = rng.choice(["unknown-key", "unknown-key", "str-value", "drop-value", "expected-false", "name-for-date", "int-for-date",
+                     "brackets-not-list", "bracket-key", "values-empty", "metadata-scalar", "top-scalar", "twice", "field-node",
+                     "dict-value", "bracket-not-map", "values-falsy", "values-falsy", "reserved-child", "index-key"])
+    junk = rng.choice([("num", "5"), ("str", "abc"), None, ("map", [(date_key(735599, "d"), ("num", "1"))]), [("num", "1")]])
+    if op == "top-scalar" or not maps:
+        return rng.choice([("num", "5"), None, ("str", "values"), ("str", "abc"), [("num", "1")], True, []]), "top-scalar"
+    m = rng.choice(maps)
+    pairs = m[1]
+    if op == "values-falsy":
+        # `values:` present but false (empty mapping, null, 0, …) beside reserved keys only: the simplified reading
+        # then takes the key `values` for an instant
+        pairs[:] = [(kname("values"), rng.choice([("map", []), None, ("num", "0"), [], False, ("str", "")]))]
+        for k, v in rng.sample(Y_NOISE[:3], rng.randint(0, 2)):
+            pairs.insert(rng.randint(0, len(pairs)), (kname(k), v))
+        return data, "mut:values-falsy"
+    if op == "reserved-child":
+        # a reserved key holding what would be a fine child: never a member
+        pairs[:] = [kv for kv in pairs if kv[0].text not in ("description", "documentation")]
+        pairs.insert(rng.randint(0, len(pairs)), (kname(rng.choice(["description", "documentation", "unit", "reference"])),
+                                                  ("map", [(date_key(735599, "d"), ("num", "1"))])))
+        return data, "mut:reserved-child"
+    if op == "index-key":
+        # top level: a key that is not reserved with a scalar value (in a directory it may land in index.yaml)
+        data[1].insert(rng.randint(0, len(data[1])), (kname(rng.choice(["foo", "Description", "units"])), rng.choice([("num", "5"), ("str", "abc"), None, True])))
+        return data, "mut:index-key"
+    dated = [i for i, (k, _v) in enumerate(pairs) if k.kind in "dmy"]
+    items = [i for i in dated if isinstance(pairs[i][1], tuple) and pairs[i][1][0] == "map"]
+    if op == "unknown-key":
+        pairs.insert(rng.randint(0, len(pairs)), (kname(rng.choice(["foo", "Value", "vaIues", "expected", "type"])), junk))
+    elif op == "str-value" and dated:
+        pairs[rng.choice(dated)] = (pairs[dated[0]][0], ("str", rng.choice(["abc", "Expected", "", "1"])))
+    elif op == "dict-value" and items:
+        i = rng.choice(items)
+        pairs[i] = (pairs[i][0], ("map", [(kname("value"), rng.choice([("map", []), ("str", "x"), ("map", [(kname("value"), ("num", "1"))])]))]))
+    elif op == "drop-value" and items:
+        i = rng.choice(items)
+        pairs[i] = (pairs[i][0], ("map", [kv for kv in pairs[i][1][1] if kv[0].text != "value"]))
+    elif op == "expected-false" and items:
+        i = rng.choice(items)
+        pairs[i][1][1].append((kname("expected"), rng.choice([False, ("num", "0"), None, ("str", "")])))
+    elif op == "name-for-date" and dated:
+        i = rng.choice(dated)
+        pairs[i] = (kname(rng.choice(["jan", "x2015", "20-15"])), pairs[i][1])
+    elif op == "int-for-date" and dated:
+        i = rng.choice(dated)
+        pairs[i] = (YKey("i", None, rng.choice(["2015", "1999", "7", "12345"])), pairs[i][1])
+    elif op == "values-empty":
+        pairs.insert(rng.randint(0, len(pairs)), (kname("values"), rng.choice([("map", []), None, ("num", "0"), [], ("num", "3"), ("str", "v"), False])))
+    elif op == "metadata-scalar":
+        pairs[:] = [kv for kv in pairs if kv[0].text != "metadata"]
+        pairs.append((kname("metadata"), rng.choice([None, ("num", "5"), ("str", "m"), True])))
+    elif op == "twice":
+        pairs.append((kname("2"), ("map", [])))
+        pairs.append((YKey("i", None, "2"), ("map", [])))
+    else:
+        brk = [i for i, (k, _v) in enumerate(pairs) if k.kind == "k" and k.text == "brackets"]
+        if not brk:
+            pairs.append((kname("brackets"), rng.choice([[], junk, [("map", [(kname("threshold"), ("map", []))])]])))
+            return data, "brackets-added"
+        i = brk[0]
+        if op == "brackets-not-list":
+            pairs[i] = (pairs[i][0], rng.choice([("map", []), None, ("num", "1"), ("str", "b")]))
+        elif op == "bracket-not-map":
+            pairs[i] = (pairs[i][0], [("num", "1"), None])
+        elif isinstance(pairs[i][1], list) and pairs[i][1] and pairs[i][1][0][0] == "map":
+            b = rng.choice(pairs[i][1])[1]
+            if op == "bracket-key":
+                b.append((kname(rng.choice(["description", "base", "metadata"])), ("map", [])))
+            else:
+                b[:] = [kv for kv in b if kv[0].text != "threshold"]
+                b.append((kname("threshold"), rng.choice([("map", [(kname("sub"), ("map", []))]), ("map", [(date_key(735599, "d"), True)]),
+                                                         ("map", [(kname("brackets"), [])])])))
+    return data, "mut:" + op
+
+
+def mk_y(root: str, ups, qs: str, data, style: int, tree=None, claimed=True, tags=()) -> Case:
+    payload = {"style": style}
+    if tree is not None:
+        payload["tree"] = tree
+    return Case(line=f"par y {root} {fmt_updates(ups)} {qs} {fmt_y(data)}", payload=payload, claimed=claimed and tree is not None,
+                tags=("data",) + tuple(tags))
+
+
+Y_BASES = [dt.date(2019, 12, 10), dt.date(2020, 1, 25), dt.date(2023, 12, 20), dt.date(1999, 12, 15), dt.date(2016, 2, 20),
+           dt.date(2014, 12, 28), dt.date(999, 12, 1), dt.date(2100, 1, 20)]
+
+
+def gen_y_case(rng: random.Random) -> Case:
+    lo = rng.choice(Y_BASES).toordinal()
+    hi = lo + 44
+    qs = f"{lo - 33}..{hi + 2}"
+    root = rng.choice(["n", "n", "taxes.x", "-"])
+    r = rng.random()
+    ups, tags, claimed = [], [], True
+    if r < 0.45:
+        entries = gen_y_history(rng, lo, hi)
+        if rng.random() < 0.12 and entries:               # two spellings of one first day: which one is "the latest" is
+            o = D(rng.choice(entries)[0]).replace(day=1)  # not for the property to say
+            o = o.replace(month=1).toordinal() if rng.random() < 0.5 else o.toordinal()
+            have = {(d, sp) for d, _t, sp in entries}
+            for sp in rng.sample(["d", "m", "y"] if D(o).month == 1 else ["d", "m"], 2):
+                if (o, sp) not in have:
+                    entries.append((o, gen_value(rng, 0.1), sp))
+            claimed = False
+            tags.append("same-first-day")
+        tree = ("P", entries)
+        nup = rng.choice([0, 0, 1, 1, 2, 3])
+        ups, t2, c2 = gen_updates(rng, [d for d, t, _sp in entries if t != "expected"], lo, hi, nup)
+        claimed = claimed and c2
+        tags += t2 + ["top:param", "spell:" + "".join(sorted({sp for _d, _t, sp in entries}))]
+    elif r < 0.8:
+        base = gen_deep(rng, lo, hi) if rng.random() < 0.15 else gen_node(rng, lo, hi)
+        tree = spell_tree(rng, base, lo, hi)
+        tags.append("top:node")
+    else:
+        tree = spell_tree(rng, gen_scale(rng, lo, hi)[0], lo, hi)
+        tags.append("top:scale")
+    data = enc_tree(rng, tree)
+    if rng.random() < 0.25:
+        data, tag = mutate_y(rng, data)
+        return mk_y(root, ups if tree[0] == "P" else [], qs, data, rng.getrandbits(30), None, False, tags + [tag])
+    return mk_y(root, ups, qs, data, rng.getrandbits(30), tree, claimed, tags)
+
+
+# ---- `par d`: a ParameterNode built from a directory (the model receives the LISTING) ------------------------
+
+
+def parse_dir(toks: list, i: int):
+    """-> ([('F', file name, data) | ('S', directory name, entries)], next index)"""
+    if i >= len(toks) or not (toks[i][:1] == "D" and toks[i][1:].isdigit() and toks[i][1:].isascii()):
+        raise Malformed("dir")
+    n, i = int(toks[i][1:]), i + 1
+    out = []
+    for _ in range(n):
+        if i >= len(toks):
+            raise Malformed("entry")
+        e = toks[i]
+        if e[:2] not in ("F:", "S:") or not e[2:] or e[2:].startswith(".") or "/" in e:
+            raise Malformed(e)
+        if e[:2] == "F:":
+            data, i = parse_y(toks, i + 1)
+            out.append(("F", e[2:], data))
+        else:
+            sub, i = parse_dir(toks, i + 1)
+            out.append(("S", e[2:], sub))
+    names = [x[1] for x in out]
+    if len(set(names)) != len(names):
+        raise Malformed("same name twice")
+    return out, i
+
+
+def write_listing(ents, path: str, rs: random.Random, order: dict) -> None:
+    listing = []
+    for kind, name, body in ents:
+        if kind == "F":
+            with open(os.path.join(path, name), "w") as f:
+                f.write("" if body is None and rs.random() < 0.5 else y_yaml(y_py(body, rs), rs))
+        else:
+            os.mkdir(os.path.join(path, name))
+            write_listing(body, os.path.join(path, name), rs, order)
+        listing.append(name)
+    order[os.path.abspath(path)] = listing
+
+
+def impl_d(parsed, rs: random.Random) -> str:
+    from openfisca_core.parameters import ParameterNode, helpers
+    _, root, qs, ents = parsed
+    name = "" if root == "-" else root
+    tmp = tempfile.mkdtemp(prefix="c06d-")
+    real = os.listdir
+    try:
+        order: dict = {}
+        top = os.path.join(tmp, "parameters")
+        os.mkdir(top)
+        write_listing(ents, top, rs, order)
+        os.listdir = lambda path=".": list(order[os.path.abspath(path)]) if os.path.abspath(path) in order else real(path)
+        try:
+            obj = ParameterNode(name, directory_path=top) if rs.random() < 0.6 else helpers.load_parameter_file(top, name)
+        except Exception:
+            return "ERR"
+        finally:
+            os.listdir = real
+    finally:
+        os.listdir = real
+        shutil.rmtree(tmp, ignore_errors=True)
+    if y_unsupported(obj):
+        return "UNSUP"
+    snaps = ";".join(show_y(obj, read_at(obj, q, rs)) for q in qs)
+    probe = alias_probe(obj, qs, rs)
+    return "T|" + snaps + "|D:" + ",".join(str(d.name) for d in obj.get_descendants()) + ("|" + probe if probe else "")
+
+
+def fmt_dir(ents) -> str:
+    out = [f"D{len(ents)}"]
+    for kind, name, body in ents:
+        out.append(f"{kind}:{name}")
+        out.append(fmt_y(body) if kind == "F" else fmt_dir(body))
+    return " ".join(out)
+
+
+def dir_of_tree(rng: random.Random, tree):
+    """a listing for a declared group: every child a YAML file, or (groups) a sub-directory; index files, files of
+    other types and (never read) files whose stem is a child's name with another extension"""
+    ents = []
+    for name, sub in tree[1]:
+        if sub[0] == "N" and rng.random() < 0.6:
+            ents.append(("S", name, dir_of_tree(rng, sub)))
+        else:
+            ents.append(("F", name + rng.choice([".yaml", ".yml"]), enc_tree(rng, sub)))
+    if rng.random() < 0.45:
+        idx = [(kname(k), v) for k, v in rng.sample(Y_NOISE[:5], rng.randint(0, 3))]
+        idx = list({k.text: (k, v) for k, v in idx}.values())
+        body = rng.choice([None, ("map", [])]) if not idx and rng.random() < 0.5 else ("map", idx)
+        ents.insert(rng.randint(0, len(ents)), ("F", "index" + rng.choice([".yaml", ".yml"]), body))
+    if rng.random() < 0.35:
+        junk = rng.choice([("num", "5"), ("map", [(date_key(735599, "d"), ("num", "1"))]), ("str", "abc")])
+        taken = {e[1] for e in ents}
+        nm = rng.choice(["README.md", "notes.txt", "yaml", "data.json", "index.txt", "a.yaml.bak"]
+                        + [n + ".txt" for n, _s in tree[1][:2]])
+        if nm not in taken:
+            ents.insert(rng.randint(0, len(ents)), ("F", nm, junk))
+    return ents
+
+
+def all_listings(ents, acc):
+    acc.append(ents)
+    for kind, _n, body in ents:
+        if kind == "S":
+            all_listings(body, acc)
+    return acc
+
+
+def mutate_dir(rng: random.Random, ents):
+    import copy
+    ents = copy.deepcopy(ents)
+    lst = rng.choice(all_listings(ents, []))
+    files = [i for i, e in enumerate(lst) if e[0] == "F" and e[1].rsplit(".", 1)[-1] in ("yaml", "yml") and not e[1].startswith("index.")]
+    op = rng.choice(["twin-ext", "twin-dir", "index-key", "index-scalar", "index-meta", "two-index", "file-scalar", "file-null", "bad-child", "reserved-stem",
+                     "index-like"])
+    names = {e[1] for e in lst}
+    if op == "twin-ext" and files:
+        k, nm, body = lst[rng.choice(files)]
+        other = nm.rsplit(".", 1)[0] + (".yml" if nm.endswith(".yaml") else ".yaml")
+        if other not in names:
+            lst.insert(rng.randint(0, len(lst)), ("F", other, body))
+    elif op == "twin-dir" and files:
+        stem = lst[rng.choice(files)][1].rsplit(".", 1)[0]
+        if stem not in names:
+            lst.insert(rng.randint(0, len(lst)), ("S", stem, rng.choice([[], [("F", "x.yaml", ("map", []))]])))
+    elif op in ("index-key", "index-scalar", "index-meta", "two-index"):
+        body = {"index-key": ("map", [(kname(rng.choice(["values", "foo", "brackets"])), rng.choice([("num", "1"), ("map", [])]))]),
+                "index-scalar": rng.choice([("num", "5"), ("str", "abc"), [("num", "1")], True, ("num", "0"), False, []]),
+                "index-meta": ("map", [(kname("metadata"), rng.choice([None, ("num", "5"), ("str", "m")]))]),
+                "two-index": ("map", [(kname("description"), ("str", "d"))])}[op]
+        lst[:] = [e for e in lst if not (e[1].startswith("index.") and op != "two-index")]
+        nm = "index.yml" if "index.yaml" in {e[1] for e in lst} else "index.yaml"
+        if nm not in {e[1] for e in lst}:
+            lst.insert(rng.randint(0, len(lst)), ("F", nm, body))
+    elif op == "file-scalar":
+        nm = rng.choice(["zz.yaml", "q.yml"])
+        if nm not in names:
+            lst.append(("F", nm, rng.choice([("num", "5"), ("str", "values"), [("num", "1")], True])))
+    elif op == "file-null":
+        nm = rng.choice(["zz.yaml", "q.yml"])
+        if nm not in names:
+            lst.append(("F", nm, None))
+    elif op == "index-like":
+        nm = rng.choice(["index2.yaml", "indexes.yml", "Index.yaml", "index.x.yaml", "my_index.yml"])
+        if nm not in names:
+            lst.insert(rng.randint(0, len(lst)), ("F", nm, ("map", [(date_key(735599, "d"), ("num", "1"))])))
+    elif op == "reserved-stem":
+        nm = rng.choice(["values.yaml", "brackets.yml", "unit_.yaml"])       # (a child named like an attribute of the node
+                                                                             # class — metadata, description — is not generated)
+        if nm not in names:
+            lst.insert(rng.randint(0, len(lst)), ("F", nm, ("map", [(date_key(735599, "d"), ("num", "1"))])))
+    elif files:
+        i = rng.choice(files)
+        lst[i] = ("F", lst[i][1], mutate_y(rng, lst[i][2])[0])
+    return ents, "mut:" + op
+
+
+def gen_d_case(rng: random.Random) -> Case:
+    lo = rng.choice(Y_BASES).toordinal()
+    hi = lo + 44
+    qs = f"{lo - 33}..{hi + 2}"
+    root = rng.choice(["n", "", "taxes.x", "-"]) or "n"
+    while True:
+        base = gen_deep(rng, lo, hi) if rng.random() < 0.2 else gen_node(rng, lo, hi)
+        tree = spell_tree(rng, base, lo, hi)
+        names = [k for k, _ in tree[1]]
+        if "index" not in names:
+            break
+    ents = dir_of_tree(rng, tree)
+    payload = {"style": rng.getrandbits(30), "tree": tree}
+    tags = ["dir"]
+    claimed = True
+    if rng.random() < 0.3:
+        ents, tag = mutate_dir(rng, ents)
+        payload.pop("tree")
+        claimed = False
+        tags.append(tag)
+    return Case(line=f"par d {root} {qs} {fmt_dir(ents)}", payload=payload, claimed=claimed, tags=tuple(tags))
+
+
 MALFORMED = [
     "par", "par p", "par p - - ", "par p 5:1 - x..y", "par p 5:1,6 - 1..3", "par p a:1 - 1..3", "par p 5:1 period:1:2 1..3",
     "par p 5:1 period:1:-:3 1..3", "par p 5:1 open:1:2:3 1..3", "par p 5:1 shift:1:2:3 1..3", "par p 5:1 range:1:2: 1..3",
     "par t - 1..3", "par t - 1..3 N 2 a P 5:1", "par t - 1..3 Q 1", "par t - 1..3 S 2 1 5:0 5:1 - -", "par t x:open:1:-:2 1..3 N 1 a P 5:1",
     "par t - 1..3 P 5:1 extra", "par q 1 2 3", "par t a:open:1:-:2 1..3 N 1 a N 1 b P 5:1",
+    "par y n - 1..3", "par y n - 1..3 M1 k:a", "par y n - 1..3 M2 k:a ~ k:a ~", "par y n - 1..3 M1 k:2015x ~", "par y n - 1..3 M1 q5~x ~",
+    "par y n - 1..3 L2 v:1 M0", "par y n - 1..3 v:01", "par y n - 1..3 M1 k:metadata L0", "par y n - 1..3 ~ ~", "par y n open:1:-:2 1..3 M1 k:a M0",
+    "par d n 1..3", "par d n 1..3 D1", "par d n 1..3 D1 F:.x ~", "par d n 1..3 D2 F:a.yaml ~ F:a.yaml ~", "par d n 1..3 D1 S:a", "par d n 1..3 D0 extra",
 ]
 
 
 def generate(rng: random.Random, tier: str):
-    n_param, n_node, n_scale, n_hist, n_thist = ((20000, 3000, 2500, 6000, 2500) if tier == "quick"
-                                                 else (160000, 20000, 20000, 40000, 15000))
+    n_param, n_node, n_scale, n_hist, n_thist = ((15000, 3000, 2500, 4500, 2500) if tier == "quick"
+                                                 else (120000, 20000, 20000, 40000, 15000))
     out = [gen_param_case(rng) for _ in range(n_param)]
     out += [gen_node_case(rng) for _ in range(n_node)]
     out += [gen_scale_case(rng) for _ in range(n_scale)]
     out += [gen_hist_case(rng) for _ in range(n_hist)]
     out += [gen_thist_case(rng) for _ in range(n_thist)]
+    out += [gen_y_case(rng) for _ in range(4000 if tier == "quick" else 40000)]
+    out += [gen_d_case(rng) for _ in range(1500 if tier == "quick" else 12000)]
     out += [Case(line=l, payload={"style": 0}, claimed=False, tags=("malformed",)) for l in MALFORMED]
     return out
 
@@ -1436,6 +2402,23 @@ def enumerate_thorough():
                     k += 1
                     form = "open" if b is None else ("period", "range")[k % 2]
                     out.append(mk_param(decl, [(None, form, a, b, v)], qs, k, True, ("enum",)))
+    # keys spelled YYYY / YYYY-MM / in full around 1 January and 1 February 2020: every subset of six keys x every
+    # closed range and open start over eight boundary days x {value, null}
+    O_ = lambda m, d: dt.date(2020, m, d).toordinal() if m else dt.date(2019, 12, 31).toordinal()
+    keys = [(O_(1, 1), "y"), (O_(1, 1), "m"), (O_(1, 1), "d"), (O_(2, 1), "m"), (O_(2, 1), "d"), (O_(1, 15), "d")]
+    pos = [O_(0, 0), O_(1, 1), O_(1, 2), O_(1, 14), O_(1, 15), O_(1, 31), O_(2, 1), O_(2, 2)]
+    ranges = [(a, b) for a in pos for b in pos if a <= b] + [(a, None) for a in pos]
+    qs = f"{O_(0, 0) - 1}..{O_(2, 2) + 1}"
+    for mask in range(64):
+        entries = [(o, str(i + 1), sp) for i, (o, sp) in enumerate(keys) if mask >> i & 1]
+        firsts = [o for o, _t, _sp in entries]
+        claimed = len(set(firsts)) == len(firsts)         # two spellings of one first day: compared, not claimed
+        decl = entries[::-1] if mask % 2 else entries
+        for (a, b) in ranges:
+            for v in ("99", "null"):
+                k += 1
+                form = "open" if b is None else ("period", "range")[k % 2]
+                out.append(mk_y("n", [(None, form, a, b, v)], qs, enc_param(random.Random(k), decl), k, ("P", decl), claimed, ("enum", "enum:spelled")))
     return out
 
 
@@ -1497,6 +2480,41 @@ def corpus():
                   ("early", ("P", [(O_(2000, 1, 1), "5"), (O_(2020, 6, 1), "null")]))])
     for spell in ("weekdate", "week"):
         out.append(mk_tree(grp2, [], f"{O_(2020, 12, 25)}..{O_(2021, 1, 5)},{O_(2020, 3, 2)}", 31, tags=("corpus", "spelling"), spell=spell))
+    # construction from YAML-like data: spellings of keys and values, the `values:` wrapper, reserved keys, integer keys,
+    # a scale with a bracket whose threshold starts later; and data the constructors must refuse
+    o15, o16 = O_(2015, 1, 1), O_(2016, 1, 1)
+    qy = f"{o15 - 2}..{o15 + 2},{O_(2015, 3, 1) - 1}..{O_(2015, 3, 1) + 1},{o16 - 1}..{o16 + 1}"
+    py = [(o16, "7", "y"), (o15, "5", "d"), (O_(2015, 3, 1), "null", "m"), (O_(2015, 6, 1), "expected", "d")]
+    for k, style in enumerate((50, 51, 52, 53)):                  # 50-53: the three construction routes and the spellings of reads
+        r2 = random.Random(style)
+        out.append(mk_y("n", [(None, "period", o15, O_(2015, 1, 31), "9")] if k % 2 else [], qy, enc_param(r2, py), style, ("P", py),
+                        tags=("corpus", "spelled-keys")))
+    ty = ("N", [("a", ("P", [(o15, "1", "y")])), ("2", ("P", [(O_(2015, 3, 1), "2", "m"), (O_(2015, 1, 2), "null", "d")])),
+                ("sub", ("N", [("c", ("P", [(o16, "3", "y")]))])),
+                ("sc", ("S", False, [([(o15, "0", "y")], [(o15, "1/4", "d")], [], []), ([(O_(2015, 3, 1), "10", "m")], [(o15, "1/2", "y")], [], [])]))])
+    for style in (54, 55, 56, 57):
+        out.append(mk_y(("n", "-", "taxes.x", "n")[style - 54], [], qy, enc_tree(random.Random(style), ty), style, ty, tags=("corpus", "data-tree")))
+    bad = ["M1 k:values M0", "M2 k:description s:x k:values ~", "M1 d735599~2015-01-01 M1 k:valeu v:5", "M1 i:2015 v:5", "v:5", "L1 v:1",
+           "M1 d735599~2015-01-01 s:abc", "M1 d735599~2015-01-01 M2 k:value v:1 k:expected b:F", "M1 k:brackets M0",
+           "M2 k:brackets L0 k:foo v:1", "M1 k:brackets L1 M1 k:base M0", "M2 k:a M0 k:metadata v:5", "M2 k:a M0 k:foo v:5",
+           "M1 k:brackets L1 M1 k:threshold M1 k:x M0", "M2 k:2 M1 k:x M0 i:2 M1 k:x M0", "M1 d735599~2015-01-01 M1 k:value s:x"]
+    for k, b_ in enumerate(bad):
+        for style in (60 + k, 90 + k):
+            out.append(Case(line=f"par y n - {o15 - 1}..{o15 + 1} {b_}", payload={"style": style}, claimed=False, tags=("corpus", "data-refused")))
+    # a directory: children as files and sub-directories, index files, a file of another type; then listings the loader refuses
+    for style in (120, 121):
+        out.append(Case(line=f"par d n {qy} {fmt_dir(dir_of_tree(random.Random(style), ty))}", payload={"style": style, "tree": ty}, tags=("corpus", "dir")))
+    pa = f"M1 d{o15}~2015-01-01 v:1"
+    for k, d_ in enumerate([f"D2 F:a.yaml {pa} F:a.yml {pa}", f"D2 F:a.yaml {pa} S:a D0", "D1 F:index.yaml M1 k:foo v:1", "D1 F:index.yml v:5",
+                            f"D2 F:index.yaml M1 k:description s:x F:index.yml M1 k:metadata ~", f"D3 F:a.txt {pa} F:index.txt v:5 F:b.yaml ~",
+                            f"D2 F:index2.yaml {pa} F:values.yml {pa}", f"D1 S:sub D1 S:deep D1 F:x.yml {pa}"]):
+        out.append(Case(line=f"par d n {o15 - 1}..{o15 + 1} {d_}", payload={"style": 130 + k}, claimed=False, tags=("corpus", "dir-listing")))
+    # add_child on a clone / on the original after the clone was taken: nobody else sees the new child
+    grp3 = ("N", [("rate", ("P", hist))])
+    out.append(mk_thist(grp3, [("c", 0), ("u", 1, ("added", "add", O_(2016, 1, 1), None, "5")), ("r", 0), ("r", 1),
+                               ("u", 0, ("other", "add", O_(2010, 1, 1), None, "null")), ("c", 0), ("r", 2), ("r", 1), ("r", 0)], days, 140,
+                        tags=("corpus", "clone", "add-child"), spell="iso"))
+    out.append(mk_tree(grp3, [("added", "add", O_(2016, 1, 1), None, "7"), ("added", "open", O_(2017, 1, 1), None, "8")], days, 141, tags=("corpus", "add-child")))
     return out
 
 
@@ -1564,25 +2582,59 @@ PROP = Prop(
           "ParameterScale objects of 1-4 brackets with independently dated threshold / rate / amount / average_rate, read at "
           "every day of a 30-day window +-2. A parameter case is non-trivial when an update changes at least one read (or, "
           "without updates, when the reads are not constant); a tree case when its snapshot varies over the window. "
+          "Aliasing: in 40% of the tree cases one read is repeated after the object it returned was spoiled through its public attributes "
+          "(a tax scale's thresholds / rates lists, a group's members): the second read must show nothing of it; `add_child` of a new parameter on a "
+          "live group (12% of the node cases, then sometimes updated) and on one object of a clone history (22% of the steps of group histories: "
+          "the clones and the original must not see each other's new children; a taken name is refused, not claimed); the mapping handed to "
+          "`_parse_child` is compared with a deep copy after the construction. "
+          "`par y`: objects built from YAML-like DATA, which the model receives and parses itself (the transcription of helpers._parse_child, "
+          "Parameter / ParameterAtInstant / ParameterNode / ParameterScale / ParameterScaleBracket constructors with every refusing branch): "
+          "declared parameters (45%, with 0-3 updates), groups (35%) and scales (20%) written with date keys spelled in full, as `YYYY-MM` "
+          "(first of a month, 40% of the entries are moved there) or `YYYY` (1 January), values bare / `{value: v}` / with metadata, unit, "
+          "reference, `expected` placeholders in three spellings, the `values:` wrapper with reserved keys around it, reserved keys interleaved "
+          "in groups, integer keys for all-digit names, scale metadata `type`; 12% of the parameter cases carry two spellings of one first "
+          "day (compared, not claimed); 25% of the cases are one edit away from well-formed data (unknown key, text value, missing `value`, "
+          "`expected: false`, a name or an integer for a date key, `brackets` not a list, a bracket that is not a mapping or has an unknown "
+          "field, `values` false or not a mapping, scalar `metadata`, a scalar or a list at the top, a reserved key holding a child, a bracket "
+          "field that is a group): model and code must agree on refusal (ERR) or on what is built. The object is built through "
+          "helpers._parse_child on the Python mapping, through helpers.load_parameter_file on a written YAML file (block and flow style, "
+          "quoted and bare keys) or, for groups, through a written directory (os.listdir pinned to the declared order); reads on every day of "
+          "a 78-day window in a random spelling of the date; a group lists its members and, for every declared child it does not expose, the "
+          "name carried by the error `node_at.child` raises; `get_descendants()` is listed by name. "
+          "`par d`: a ParameterNode built from a DIRECTORY whose listing the model receives (files with their YAML content, sub-directories, "
+          "index.yaml / index.yml, files of other types); 30% are one edit away: the same stem with both extensions or as file and "
+          "directory, an index with an unknown key / a scalar / scalar metadata, two index files, a file holding a scalar or nothing, a file "
+          "whose stem resembles `index` or is `values` / `brackets`, a malformed child file. "
           "distinct = distinct protocol lines."),
     assumptions=[
         "instants are zero-padded ISO strings compared as strings in the code and proleptic ordinals in the model; the two orders "
         "agree on valid dates of years 1..9999 (Lemmas/Calendar.lean: ord_lt_of_lex, ord_inj); stop.offset(1, 'day') is ordinal + 1",
-        "entry keys are full YYYY-MM-DD dates (INSTANT_PATTERN also admits YYYY and YYYY-MM keys; not generated); keys of a mapping are distinct (Python dict)",
+        "`par p/t/h/ht`: entry keys are full YYYY-MM-DD dates. `par y/d`: keys are spelled YYYY-MM-DD, YYYY-MM or YYYY; the code keeps and compares "
+        "the key TEXTS, the model three ticks per day (YYYY < YYYY-MM < full spelling of the same first day; Lemmas/Param.lean fine_lt_of_lex: the order of the "
+        "ticks is the order of the zero-padded texts); texts matching INSTANT_PATTERN that are no date (`2015-02-30`, `2015-01-01-01`) are not generated; keys of "
+        "a mapping are distinct as texts (a Python dict also admits 2 beside '2', the YAML loader does not)",
+        "`par y/d`: which exception class a refusing constructor raises is not compared (ERR); a bracket field that is not a dated parameter with numeric values is "
+        "outside the model (UNSUP, not generated except by the edits); `metadata` is a mapping or a scalar (not a list or the empty text, on which dict.update behaves "
+        "in ways not modelled); child names avoid the attributes of the node classes (a file `metadata.yaml` replaces the node's own metadata)",
         "Python's sorted(), dict order, bisect.bisect_left (by its contract on sorted lists) and the tax scales' add_bracket are modelled, tied by this correspondence",
         "periods.period / periods.instant / Instant.offset are the business of C04/C05; here a period argument is built to denote exactly the days a..b computed with datetime",
-        "claim domain (Appendix A): start <= stop, dated values; reversed ranges and refused call forms are compared but not binding; YAML file loading is not exercised (data= constructors)",
+        "claim domain (Appendix A): start <= stop, dated values; reversed ranges and refused call forms are compared but not binding",
         "scale values are dyadic rationals on which the float additions of add_bracket are exact",
         "child names do not collide with attributes of the node classes themselves: a child named `children`, `add_child` or "
         "`_children` makes the group impossible to build or evaluate at the pinned tree (reported, not generated)",
         "update(): `start` is passed as Instant, ISO string or date, `stop` as Instant (the code calls stop.offset; str and date "
-        "stops raise AttributeError at the pinned tree); text values are refused by the loader (ALLOWED_PARAM_TYPES) and not generated",
+        "stops raise AttributeError at the pinned tree); text values are refused by the loader (ALLOWED_PARAM_TYPES): `par y` checks the refusal, the other kinds do not generate them",
     ],
     exhaustive_note=("thorough: all 256 subsets of entry dates of the 8-day window 2020-02-25..2020-03-03 (distinct values; and with "
                      "every second entry null) x all 55 closed ranges and 10 open starts over the window +-1 x {new value, null}, "
-                     "read at every day of the window -3/+4"),
+                     "read at every day of the window -3/+4; and all 64 subsets of the six keys `2020`, `2020-01`, `2020-01-01`, `2020-02`, "
+                     "`2020-02-01`, `2020-01-15` (subsets with two spellings of one first day compared, not claimed) x all 36 closed ranges and "
+                     "8 open starts over the days 2019-12-31, 01-01, 01-02, 01-14, 01-15, 01-31, 02-01, 02-02 x {new value, null}, built from data"),
     level_text=("T-full on the model: latest-entry reading, sorted construction, pointwise effect of one update (closed and open) "
                 "and, by induction, of every finite sequence of updates; node members = children defined; scale rows = brackets "
-                "with threshold and value defined. K: the real Parameter / ParameterNode / ParameterScale objects vs the model; "
-                "YAML loading carried by nobody (data= constructors only)."),
+                "with threshold and value defined; construction from YAML-like data and from a directory listing (dispatch, spellings of keys "
+                "and values, refusals) transcribed and tied to the reading theorem (C06_data_get, C06_data_node, C06_dir_files); update on "
+                "histories with short-spelled keys (C06_update_spelled). K: the real Parameter / ParameterNode / ParameterScale objects and the "
+                "real loaders (helpers._parse_child, load_parameter_file on written files and directories) vs the model; the YAML parser itself "
+                "(PyYAML, the duplicate-key and timestamp constructors of parameters/config.py) is exercised but not modelled."),
 )
